@@ -155,9 +155,27 @@ def run_case(case):
     sess_errors = {}
     steps_plan = case.get("steps_plan")
     log = []
-    for step in range(conf["steps"] if not steps_plan else len(steps_plan)):
+    # scripted prelude: every sibling group (queries that differ in one field a cache key must contain, views of one dataset, a
+    # query and its narrowing selection) is visited member after member - compute each, then observe each - before the random steps
+    prelude = []
+    if not steps_plan:
+        groups = {}
+        for i_, q_ in enumerate(pool):
+            if "_sib" in q_:
+                groups.setdefault(q_["_sib"], []).append(i_)
+        r2 = derive_rng("C15prelude", case["seed"], case["session"])
+        for members in groups.values():
+            # planning that keeps the partitions (compute() collapses to one partition and bypasses the planner caches) ...
+            prelude += [(i_, "optimize_keep") for i_ in members]
+            # ... then every member is observed through the planner, in the other order
+            for i_ in reversed(members):
+                prelude += [(i_, "plan"), (i_, r2.choice(["divisions", "len", "compute", "npartitions"]))]
+        prelude = prelude[:130]
+    for step in range(len(prelude) + conf["steps"] if not steps_plan else len(steps_plan)):
         if steps_plan:
             qi, action = steps_plan[step]
+        elif step < len(prelude):
+            qi, action = prelude[step]
         else:
             sibs = [i for i, q_ in enumerate(pool) if "_sib" in q_]
             qi = rng.choice(sibs) if (sibs and rng.random() < 0.45) else rng.randrange(len(pool))
